@@ -8,6 +8,10 @@ Oracle   : a naive reference expander (fold += into the definition, substitute r
            combinations), itself conformance-checked against `apparmor_parser -D expanded-variables` on every
            sequence of length <= 4 (quick <= 3): values as sets with // collapsed, and the parser's
            accept / "undefined" / "recursively" / "previously declared" verdicts.
+Built-in : files of <= 3 lines over a 7-line alphabet (definitions of @{exec_path} from built-in variables, appends to
+           built-in variables) resolved on aa.DefaultTunables() as builder.Userspace does, every in-process history of
+           <= 2 (thorough 3) files: each result must equal the reference expansion over the built-in table as it was at
+           process start plus the file's own lines (no carried state).
 Real code: aa.Parse + Resolve in-process (engine/gox/cmd/c13x), sharded over processes by first line.
 """
 import json, os, re, subprocess, tempfile
@@ -67,6 +71,16 @@ def run(tier):
             classes[k] = classes.get(k, 0) + v
         for v in j['violations']:
             fnd.report(v['sig'], v['what'] + ' -- e.g. ' + ' ; '.join(v['input']), {'preamble_lines': v['input']})
+    # files resolved on top of the built-in table (the way the userspace builder and the exec directive call Resolve),
+    # every history of <= 2 (thorough 3) files in one process
+    depth = 3 if tier == 'thorough' else 2
+    r = subprocess.run([bins['c13x'], '-tunables', str(depth)], capture_output=True, text=True)
+    if r.returncode != 0:
+        raise SystemExit('HARNESS ERROR: c13x -tunables: ' + r.stderr[-1000:])
+    tj = json.loads(r.stdout)
+    for v in tj['violations']:
+        fnd.report(v['sig'], v['what'] + ' -- history: ' + ' || '.join(v['input']), {'history': v['input']})
+    ev.add(builtin_table_histories=tj['sequences'], builtin_table_files=tj['files'], builtin_table_history_depth=depth)
     # conformance of the reference expander with the reference parser
     dump = subprocess.run([bins['c13x'], '-len', str(LC), '-dump'], capture_output=True, text=True)
     cases = [json.loads(l) for l in dump.stdout.split('\n') if l.strip()]
@@ -87,7 +101,7 @@ def run(tier):
     pool.shutdown()
     ev.sample({'preamble': res[4]['alphabet'][4:9], 'reference_class': 'ok'})
     ev.sample({'classes_of_explored_preambles': classes})
-    ev.add(states=total, transitions=total, traces_validated_against_impl=len(cases), sequences=total, max_lines=L,
+    ev.add(states=total + tj['sequences'], transitions=total + tj['sequences'], traces_validated_against_impl=len(cases), sequences=total, max_lines=L,
            reference_succeeds_on=classes.get('ok', 0), excluded_append_before_definition=classes.get('append-before-def', 0),
            conformance_cases_vs_apparmor_parser=len(cases), alphabet=res[0]['alphabet'])
     ev.add(rule='state = one preamble (sequence of distinct alphabet lines) pushed through the real Parse+Resolve; traces_validated = preambles on which the reference expander was compared with apparmor_parser -D expanded-variables')
